@@ -5,6 +5,7 @@ import (
 	"encoding/binary"
 	"errors"
 	"fmt"
+	"github.com/go-netty/go-netty/codec/format"
 	"github.com/go-netty/go-netty/codec/frame"
 	"io"
 	"net"
@@ -304,6 +305,24 @@ func runC07(c *core.Ctx) {
 				continue
 			}
 			c07HolderDup(c, id, mode, swallow)
+		}
+	}
+	// read-event panics behind the shipped packet codec (which keeps one buffer across packets): after the consumed
+	// exception the channel must still deliver the following packets as they are
+	pi := 0
+	for _, mode := range []mon.Mode{mon.Sync, mon.Blocking} {
+		for val := 0; val < 5; val++ {
+			for _, inner := range []string{"text", "length-field+text"} {
+				pi++
+				if !c.Mine(pi) {
+					continue
+				}
+				id := fmt.Sprintf("packet-after-panic/%s/v%d/%s", mode, val, inner)
+				if !c.Case(id) {
+					continue
+				}
+				c07PacketAfterPanic(c, id, mode, val, inner)
+			}
 		}
 	}
 	// transport faults
@@ -757,6 +776,81 @@ func c07Idle(c *core.Ctx, id string, valKind int, shape string, readIdle bool) {
 }
 
 // c07Fault: transport failures.
+// c07TextSink records text messages and panics on the ones starting with "bad".
+type c07TextSink struct {
+	mu   sync.Mutex
+	msgs []string
+	val  interface{}
+}
+
+func (t *c07TextSink) HandleRead(ctx netty.InboundContext, message netty.Message) {
+	s, ok := message.(string)
+	if !ok {
+		ctx.HandleRead(message)
+		return
+	}
+	t.mu.Lock()
+	t.msgs = append(t.msgs, s)
+	t.mu.Unlock()
+	if strings.HasPrefix(s, "bad") {
+		if t.val == nil {
+			var m map[string]int
+			m["boom"] = 1 // a real runtime error
+		}
+		panic(t.val)
+	}
+}
+
+func c07PacketAfterPanic(c *core.Ctx, id string, mode mon.Mode, valKind int, inner string) {
+	val, _ := c07PanicValue(valKind)
+	if ne, ok := val.(net.Error); ok && !ne.Timeout() {
+		return // the documented exception: a non-timeout net.Error closes the channel
+	}
+	sink := &c07TextSink{val: val}
+	exc := &excProbe{name: "only", swallow: true}
+	hs := []netty.Handler{frame.PacketCodec(64)}
+	enc := func(s string) []byte { return []byte(s) }
+	if inner == "length-field+text" {
+		hs = append(hs, frame.LengthFieldCodec(binary.BigEndian, 1024, 0, 2, 0, 2))
+		enc = func(s string) []byte { return append([]byte{byte(len(s) >> 8), byte(len(s))}, s...) }
+	}
+	hs = append(hs, format.TextCodec(), sink, exc)
+	tr := mon.NewRecTransport()
+	packets := []string{"one", "bad packet", "two", "bad again", "three"}
+	for _, p := range packets {
+		tr.Feed(mon.ReadStep{Data: enc(p), WithErr: io.EOF})
+	}
+	rig := mon.NewRig(mon.RigOpts{Mode: mode, Queue: 4, NoPark: true, Handlers: hs, Tr: tr})
+	defer rig.Dispose()
+	for dl := time.Now().Add(10 * time.Second); !(tr.ScriptExhausted() && tr.InRead() > 0) && !tr.IsClosed(); {
+		if time.Now().After(dl) {
+			c.Inconclusive(id, "watchdog: packets not consumed")
+			return
+		}
+		time.Sleep(50 * time.Microsecond)
+	}
+	c.Count("packet_after_panic_cells", 1)
+	c.Sig("packet-after-panic", mode, valKind, inner)
+	sink.mu.Lock()
+	got := append([]string(nil), sink.msgs...)
+	sink.mu.Unlock()
+	exc.mu.Lock()
+	nexc := len(exc.seen)
+	exc.mu.Unlock()
+	where := fmt.Sprintf("[PacketCodec -> %s -> handler panicking with %T on two of five packets, exceptions consumed, mode=%s]", inner, val, mode)
+	if tr.IsClosed() || !rig.Ch.IsActive() {
+		c.Violation("C07:consumed-exception-closed-channel", id, "the panics were consumed but the channel was closed "+where, nil)
+		return
+	}
+	if nexc != 2 {
+		c.Violation("C07:exception-count", id, fmt.Sprintf("two read-event panics were delivered %d times as exceptions %s", nexc, where), nil)
+		return
+	}
+	if fmt.Sprint(got) != fmt.Sprint(packets) {
+		c.Violation("C07:channel-unusable-after-consumed-panic", id, fmt.Sprintf("after a consumed read-event panic the following packets are not delivered as they were received: got %q, want %q %s", got, packets, where), nil)
+	}
+}
+
 // c07Drain reads every delivered frame to its end and raises a read error the way the shipped codecs do.
 type c07Drain struct{}
 
